@@ -5,12 +5,19 @@
 package c17
 
 import (
+	"context"
 	"encoding/json"
 	"fmt"
 	"math"
+	"os"
+	"path/filepath"
+	"runtime"
 	"runtime/debug"
 	"strings"
 	"time"
+
+	"github.com/streamingfast/dmetering"
+	"github.com/streamingfast/substreams/wasm/wazero"
 
 	pbssinternal "github.com/streamingfast/substreams/pb/sf/substreams/intern/v2"
 	pbsubstreamsrpc "github.com/streamingfast/substreams/pb/sf/substreams/rpc/v2"
@@ -29,20 +36,30 @@ var (
 )
 
 func init() {
+	// debugging aid for replays: VH_C17_TIMEOUTS=3,5
+	var a, b int
+	if n, _ := fmt.Sscanf(os.Getenv("VH_C17_TIMEOUTS"), "%d,%d", &a, &b); n == 2 {
+		firstTimeout, secondTimeout = time.Duration(a)*time.Second, time.Duration(b)*time.Second
+	}
+}
+
+func init() {
 	fw.Register(&fw.Spec{
 		ID:    "C17",
 		Level: "exploration",
 		Rule: "case = batch of 100 requests, alternately sf.substreams.rpc.v2.Request and sf.substreams.internal.v2.ProcessRangeRequest, from four families: (A) structurally arbitrary messages (every field free, 0..120 modules), " +
 			"(B) a well-formed request built by the harness with 1-3 structural mutations (absent kind / input oneof, dangling, self and cyclic references, duplicate / empty / invalid names, binary index out of range, extreme initial blocks, bogus store policies, bad cursors, start/stop relations, stage out of range, ...), " +
 			"(C) a well-formed request marshalled, mutated at byte level and unmarshalled again, (D) the well-formed request itself. Every message is passed through proto.Marshal/Unmarshal first, so it is one a client can put on the wire. " +
-			"Each message runs, in a goroutine under a 20 s watchdog, through the real exported functions in the order the services chain them: tier1 ValidateTier1Request -> exec.NewOutputModuleGraph -> pipeline.BuildRequestDetails (stub callbacks, PRNG-chosen answers) -> ValidateRequestStartBlock -> execout.NewConfigs -> store.NewConfigMap -> plan.BuildTier1RequestPlan; " +
-			"tier2 ValidateTier2Request -> exec.NewOutputModuleGraph -> BuildRequestDetailsFromSubrequest -> execout.NewConfigs(UsedModulesUpToStage) -> store.NewConfigMap -> index.NewConfigs(UsedIndexesModulesUpToStage) -> service.GetExecutionPlan. " +
-			"Violation: panic in a stage (signature = stage + innermost /repo function + normalized message), hang reproduced alone under a 60 s watchdog, heap or process memory growing by > 512 MiB in one stage for a message < 1 MiB, or a stage returning neither a result nor an error. " +
-			"non-trivial = message that request validation accepted (so graph construction, hashing and staging ran on it) or that was rejected later than validation; distinct by hash of the wire bytes",
+			"Each message runs in a goroutine under a 20 s watchdog: tier1 = nil-Modules guard + service.ValidateTier1Request, then the REAL Tier1Service.blocks through service.TestNewService(...).TestBlocks (graph, request details, configs, pipeline, plan, Init, back-processing with a worker that fails every job, block source that delivers no block, OnStreamTerminated); " +
+			"requests with a negative start block or a cursor needing resolution (TestNewService has no head-block / cursor callbacks) run exec.NewOutputModuleGraph -> pipeline.BuildRequestDetails (stub callbacks, PRNG-chosen answers) -> ValidateRequestStartBlock -> configs -> plan.BuildTier1RequestPlan instead. " +
+			"tier2 = nil-Modules guard + service.ValidateTier2Request, then the REAL Tier2Service.processRange through service.TestNewServiceTier2(...).TestProcessRange (stores, graph, stage check, configs, GetExecutionPlan, pipeline New/Init/InitTier2Stores/BuildModuleExecutors with the default wazero runtime, no-block source, OnStreamTerminated). " +
+			"Violation: panic in a stage (signature = stage + innermost /repo function + normalized message), hang reproduced alone under a 60 s watchdog, heap or process memory growing by > 512 MiB in one stage for a message < 1 MiB, a stage returning neither a result nor an error, or a hand-minimised malformed witness of case 0 that is not rejected with an error. " +
+			"non-trivial = message that request validation accepted (so the service ran on it); distinct by hash of the wire bytes",
 		Assumptions: []string{
 			"only wire-representable messages are in scope (no nil element in a repeated field, no oneof wrapper holding a nil message): they cannot be produced by proto.Unmarshal",
-			"the glue between the exported functions (start-block normalisation at the top of Tier1Service.blocks, the nil-Modules guard, argument computation for BuildTier1RequestPlan) is re-stated in the driver because Blocks/blocks/processRange need a full service; everything that can panic or loop on request content is the real code",
-			"tier2: the stores named by the request are not opened (StateStore / MergedBlocksStore are tier1-provided configuration); an empty in-memory store is used, so GetExecutionPlan finds no existing file; dmetering.New is not called",
+			"the two lines of Blocks/ProcessRange before validation (nil-Modules guard, module-name list) are re-stated; everything after validation is the real blocks()/processRange(), except tier1 requests that need getHeadBlock/resolveCursor, for which the exported functions are chained by the driver",
+			"tier2: StateStore / MergedBlocksStore are kept when they are memory:// URLs or use a scheme dstore does not know (error expected), and replaced by a fresh memory:// URL otherwise (local paths and cloud buckets are not opened); the metering plugin is the null emitter",
+			"no tier2 behind tier1: every parallel job fails at once, so a tier1 request that needs back-processing ends with that error; no block is delivered, so no module code runs (binaries of well-formed requests are valid empty WebAssembly modules)",
 			"segment size (tier1) and block type are server configuration: segment size in {1,10,100,1000}, never 0",
 			"after 2 confirmed hangs in one worker process no further message is run through the stage that hung (a hung goroutine cannot be killed)",
 		},
@@ -54,11 +71,26 @@ func init() {
 		},
 		CaseTimeout:   15 * time.Minute,
 		MinNontrivial: 2000,
-		Setup: func(tier, mode string) {
-			debug.SetMemoryLimit(math.MaxInt64)
-		},
-		Run: run,
+		Setup:         setup,
+		Run:           run,
 	})
+}
+
+func setup(tier, mode string) {
+	debug.SetMemoryLimit(math.MaxInt64)
+	os.Unsetenv("SUBSTREAMS_WASM_RUNTIME") // default runtime (wazero)
+	dmetering.RegisterNull()
+	scratch := os.Getenv("VH_SCRATCH")
+	if scratch == "" {
+		scratch, _ = os.MkdirTemp("", "vh-c17-")
+	}
+	if scratch != "" {
+		dir := filepath.Join(scratch, fmt.Sprintf("c17-%d", os.Getpid()))
+		if os.MkdirAll(dir, 0o755) == nil {
+			os.Chdir(dir) // nothing should be written through a relative path; if something is, it lands here
+			wazero.SetTempDir(dir)
+		}
+	}
 }
 
 type witness struct {
@@ -69,6 +101,7 @@ type witness struct {
 	Request   json.RawMessage `json:"request"`
 	WireSize  int             `json:"wire_bytes"`
 	Stack     string          `json:"stack,omitempty"`
+	Hung      string          `json:"goroutines_in_repo_code_at_timeout,omitempty"`
 	Reached   []string        `json:"stages_completed,omitempty"`
 }
 
@@ -102,14 +135,18 @@ func toJSON(m proto.Message) json.RawMessage {
 	return b
 }
 
-// execute runs job under the watchdog. It returns the outcome, or the stage name where it hung.
-func execute(job func(o *outcome), timeout time.Duration) (*outcome, string) {
+// execute runs job under the watchdog. It returns the outcome, or the stage name where it hung. The context
+// handed to the job is cancelled once the job returned (or was given up), so that what the real services
+// started (scheduler, back-filler) stops.
+func execute(job func(ctx context.Context, o *outcome), timeout time.Duration) (*outcome, string) {
 	o := &outcome{}
 	o.cur.Store("start")
+	ctx, cancel := context.WithCancel(context.Background())
+	defer cancel()
 	done := make(chan struct{})
 	go func() {
 		defer close(done)
-		job(o)
+		job(ctx, o)
 	}()
 	t := time.NewTimer(timeout)
 	defer t.Stop()
@@ -117,8 +154,31 @@ func execute(job func(o *outcome), timeout time.Duration) (*outcome, string) {
 	case <-done:
 		return o, ""
 	case <-t.C:
+		lastHangDump = goroutineDump()
 		return nil, o.cur.Load().(string)
 	}
+}
+
+var lastHangDump string
+
+// goroutineDump returns the stacks of the goroutines that are inside /repo code (what a hung request is doing).
+func goroutineDump() string {
+	buf := make([]byte, 4<<20)
+	buf = buf[:runtime.Stack(buf, true)]
+	var keep []string
+	for _, g := range strings.Split(string(buf), "\n\n") {
+		if strings.Contains(g, "streamingfast/substreams/") && !strings.Contains(g, "c17.goroutineDump") {
+			if len(g) > 2500 {
+				g = g[:2500] + "..."
+			}
+			keep = append(keep, g)
+		}
+	}
+	out := strings.Join(keep, "\n\n")
+	if len(out) > 20000 {
+		out = out[:20000] + "..."
+	}
+	return out
 }
 
 type item struct {
@@ -128,12 +188,13 @@ type item struct {
 	msg    proto.Message // nil when wire is given
 	wire   []byte
 	env    *t1env // nil: drawn from the PRNG
+	expect string // corpus only: "reject" = must be rejected with an error, "" = anything but a violation
 }
 
 // corpus is a fixed list of hand-minimized messages, run at the start of case 0 of every run, so that each
 // root cause found so far has a small deterministic witness.
 func corpus() []item {
-	bin := []*pbsubstreams.Binary{{Type: "wasm/rust-v1", Content: []byte("x")}}
+	bin := []*pbsubstreams.Binary{{Type: "wasm/rust-v1", Content: emptyWasm('x')}}
 	mapMod := func(name string, inputs ...*pbsubstreams.Module_Input) *pbsubstreams.Module {
 		return &pbsubstreams.Module{Name: name, Kind: kindMap(), Inputs: inputs, Output: &pbsubstreams.Module_Output{Type: "proto:my.Out"}}
 	}
@@ -144,18 +205,18 @@ func corpus() []item {
 	}
 	one := &pbsubstreams.Modules{Binaries: bin, Modules: []*pbsubstreams.Module{mapMod("m", srcInput(testBlockType))}}
 	return []item{
-		{tier: 1, family: "corpus", muts: []string{"single module without kind"}, env: plainEnv,
+		{tier: 1, family: "corpus", expect: "reject", muts: []string{"single module without kind"}, env: plainEnv,
 			msg: &pbsubstreamsrpc.Request{OutputModule: "m", StopBlockNum: 10, Modules: &pbsubstreams.Modules{Binaries: bin, Modules: []*pbsubstreams.Module{{Name: "m", Inputs: []*pbsubstreams.Module_Input{srcInput(testBlockType)}}}}}},
-		{tier: 2, family: "corpus", muts: []string{"single module without kind"},
+		{tier: 2, family: "corpus", expect: "reject", muts: []string{"single module without kind"},
 			msg: t2(&pbsubstreams.Modules{Binaries: bin, Modules: []*pbsubstreams.Module{{Name: "m", Inputs: []*pbsubstreams.Module_Input{srcInput(testBlockType)}}}}, "m", 0)},
-		{tier: 1, family: "corpus", muts: []string{"valid map module, request carries no binary"}, env: plainEnv,
+		{tier: 1, family: "corpus", expect: "reject", muts: []string{"valid map module, request carries no binary"}, env: plainEnv,
 			msg: &pbsubstreamsrpc.Request{OutputModule: "m", StopBlockNum: 10, Modules: &pbsubstreams.Modules{Modules: []*pbsubstreams.Module{mapMod("m", srcInput(testBlockType))}}}},
-		{tier: 1, family: "corpus", muts: []string{"valid map module, binary_index 1 with one binary"}, env: plainEnv,
+		{tier: 1, family: "corpus", expect: "reject", muts: []string{"valid map module, binary_index 1 with one binary"}, env: plainEnv,
 			msg: &pbsubstreamsrpc.Request{OutputModule: "m", StopBlockNum: 10, Modules: &pbsubstreams.Modules{Binaries: bin, Modules: []*pbsubstreams.Module{
 				{Name: "m", Kind: kindMap(), BinaryIndex: 1, Inputs: []*pbsubstreams.Module_Input{srcInput(testBlockType)}, Output: &pbsubstreams.Module_Output{Type: "proto:my.Out"}}}}}},
-		{tier: 1, family: "corpus", muts: []string{"map module whose only input has no oneof member set"}, env: plainEnv,
+		{tier: 1, family: "corpus", expect: "reject", muts: []string{"map module whose only input has no oneof member set"}, env: plainEnv,
 			msg: &pbsubstreamsrpc.Request{OutputModule: "m", StopBlockNum: 10, Modules: &pbsubstreams.Modules{Binaries: bin, Modules: []*pbsubstreams.Module{mapMod("m", &pbsubstreams.Module_Input{})}}}},
-		{tier: 2, family: "corpus", muts: []string{"well-formed single-map request, stage 1 (graph has 1 stage)"}, msg: t2(one, "m", 1)},
+		{tier: 2, family: "corpus", expect: "reject", muts: []string{"well-formed single-map request, stage 1 (graph has 1 stage)"}, msg: t2(one, "m", 1)},
 		{tier: 2, family: "corpus", muts: []string{"well-formed single-map request, stage 0"}, msg: t2(proto.Clone(one).(*pbsubstreams.Modules), "m", 0)},
 		{tier: 1, family: "corpus", muts: []string{"well-formed single-map request"}, env: plainEnv,
 			msg: &pbsubstreamsrpc.Request{OutputModule: "m", StopBlockNum: 10, Modules: proto.Clone(one).(*pbsubstreams.Modules)}},
@@ -294,12 +355,12 @@ func run(c *fw.Case) {
 			}
 			return w
 		}
-		job := func(m proto.Message) func(o *outcome) {
-			return func(o *outcome) {
+		job := func(m proto.Message) func(ctx context.Context, o *outcome) {
+			return func(ctx context.Context, o *outcome) {
 				if tier == 1 {
-					runTier1(o, m.(*pbsubstreamsrpc.Request), env)
+					runTier1(ctx, o, m.(*pbsubstreamsrpc.Request), env)
 				} else {
-					runTier2(o, m.(*pbssinternal.ProcessRangeRequest))
+					runTier2(ctx, o, m.(*pbssinternal.ProcessRangeRequest))
 				}
 			}
 		}
@@ -316,7 +377,9 @@ func run(c *fw.Case) {
 			if o2 == nil {
 				confirmedHangs++
 				hungStages[hungAt2] = true
-				violation("C17/hang/"+hungAt2, fmt.Sprintf("tier%d request still running in stage %s after %s (first run: stage %s after %s)", tier, hungAt2, secondTimeout, hungAt, firstTimeout), mkWitness(nil))
+				w := mkWitness(nil)
+				w.Hung = lastHangDump
+				violation("C17/hang/"+hungAt2, fmt.Sprintf("tier%d request still running in stage %s after %s (first run: stage %s after %s)", tier, hungAt2, secondTimeout, hungAt, firstTimeout), w)
 				continue
 			}
 			c.Inconclusive(fmt.Sprintf("request exceeded %s in stage %s once, finished when re-run alone", firstTimeout, hungAt))
@@ -348,6 +411,21 @@ func run(c *fw.Case) {
 			if family == "D-well-formed" {
 				c.Count("well_formed_accepted", 1)
 			}
+		}
+		if it.expect == "reject" && o.panicStage == "" && o.rejectedAt == "" {
+			violation("C17/malformed-witness-accepted", fmt.Sprintf("hand-minimised malformed tier%d request %q went through every stage without an error", tier, muts), mkWitness(o))
+		}
+		if it.expect == "reject" && o.rejectedAt != "" {
+			c.Count("malformed_witnesses_rejected_with_error", 1)
+			if c.WantSample() {
+				c.Sample(map[string]any{"malformed_witness": muts, "tier": tier, "rejected_at": o.rejectedAt, "error": o.err.Error()})
+			}
+		}
+		if o.route != "" {
+			c.Count(fmt.Sprintf("route_tier%d/%s", tier, o.route), 1)
+		}
+		if o.sanitized {
+			c.Count("tier2_store_url_replaced_by_memory_store", 1)
 		}
 		if o.memGrowth > 512<<20 && len(wire) < 1<<20 {
 			violation("C17/memory/"+o.memStage, fmt.Sprintf("a %d-byte tier%d request made memory grow by %d MiB in stage %s", len(wire), tier, o.memGrowth>>20, o.memStage), mkWitness(o))
